@@ -9,7 +9,7 @@ claimed = {
          "Exploration: every Compare call on generated pools is observed and the total-preorder laws are decided on the complete matrix of each pool; holds only for the pools produced.",
          "Trusts the pool generators' reach (clusters, boundary numbers, respellings) and Go's sort; alpm pools split by pkgrel presence as the property allows.", "5/C01"),
 }
-REFTXT = "Exploration: every ordered pair of generated in-domain pools is compared by the real Compare and by an independent executable reference model written from the upstream definition; disagreement on any observed pair is a violation with the deciding clause named."
+REFTXT = "Exploration: every ordered pair of generated in-domain pools is compared by the real Compare and by an independent executable reference model written from the upstream definition; disagreement on any observed pair is a violation with the deciding clause named. A volume workload (560k distinct versions parsed and kept, compared afterwards) and used objects (passed through range membership first) extend the observation to state that builds up and to operand mutation."
 for i, (what, note) in {
  "C08": ("SemVer 2.0.0 section 11 (ref/semver.go)", "Model calibrated against node-semver (0 disagreements on 178k pairs); identifiers up to 18 digits; NuGet single-case."),
  "C09": ("PEP 440 / packaging._cmpkey (ref/pep440.go)", "Model calibrated against packaging 26.3 (0 disagreements on 600k pairs)."),
@@ -53,9 +53,9 @@ claimed["C18"] = ("metamorphic law monitor: String()/re-parse round trip and whi
 claimed["C20"] = ("law monitor over pool x range membership matrices: equal versions agree, conjunctions are convex (runtime monitoring)",
   "Exploration: every accepted generated range is evaluated on whole pools enriched with respellings; Compare-equal versions must agree on membership and conjunction-only ranges must contain a contiguous block of the pool's sorted classes.",
   "Compare is the order; pools that are not total preorders are skipped (C01); exclusions as in the quantifier.", "5/C20")
-claimed["C19"] = ("Go race detector over barrier-released goroutine storms on shared values + purity fingerprints + concurrent/sequential and history differentials (runtime monitoring, sanitizer)",
-  "Exploration: a -race build runs storms at several G and GOMAXPROCS on shared versions, ranges and ecosystem values for all 20 ecosystems and vers; DATA RACE reports, result differences vs a sequential run, fingerprint changes across calls and history dependence are the violations.",
-  "Happens-before race detection covers conflicting accesses the workload executes; package-level tables are observed through results, not fingerprinted.", "5/C19")
+claimed["C19"] = ("Go race detector over barrier-released goroutine storms on shared values and over cold-start processes + hot-object storm in the fast build + observable-purity monitor + volume (state that builds up) + concurrent/sequential and history differentials (runtime monitoring, sanitizer)",
+  "Exploration: a -race build runs storms at several G and GOMAXPROCS on shared versions, ranges and ecosystem values for all 20 ecosystems and vers, and cold-start processes whose first library calls are concurrent; the fast build puts 16 goroutines inside one shared object at a time; DATA RACE reports, result differences vs a sequential run, observable changes of operands across calls, answers that change after 560k further distinct inputs and history / fresh-process differences are the violations.",
+  "Happens-before race detection covers conflicting accesses the workload executes; a change of an operand's memory counts only when String / Compare / Contains differ from a fresh parse; package-level tables are observed through results.", "5/C19 and 10.2")
 pending = {}
 props = [json.loads(l) for l in open(os.path.join(V, "properties.jsonl"))]
 checks, na = [], []
